@@ -19,7 +19,15 @@ import (
 	"time"
 )
 
-func c17BatchFile(r *RNG, L int, crlf bool, blanks float64, trailingNL bool) (content string, nonEmpty []string) {
+// c17Align places the line feed that ends one line at a chosen file offset (a multiple of a common buffer size,
+// or one byte before / behind it): readers that work through the file in chunks meet a line end on a chunk edge.
+type c17Align struct {
+	line  int // 0-based index of the padded line
+	chunk int // 4096, 32768, 65536
+	delta int // -1, 0, +1
+}
+
+func c17BatchFile(r *RNG, L int, crlf bool, blanks float64, trailingNL bool, pad int, al *c17Align) (content string, nonEmpty []string) {
 	eol := "\n"
 	if crlf {
 		eol = "\r\n"
@@ -34,8 +42,21 @@ func c17BatchFile(r *RNG, L int, crlf bool, blanks float64, trailingNL bool) (co
 		if r.Bool(0.3) {
 			line += " poligonID=x" + fmt.Sprint(r.Intn(99))
 		}
-		if blanks > 0 && r.Bool(0.12) {
+		if pad > 0 {
+			line += " note=" + strings.Repeat("n", r.Intn(pad))
+		}
+		if blanks > 0 && r.Bool(0.12) && !(al != nil && al.line == i) {
 			line = r.PickS([]string{" ", "   ", "\t", " \t "}) // not empty: a line of white space is a batch line (it fails with a reported error)
+		}
+		if al != nil && al.line == i && (i < L-1 || trailingNL) {
+			// offset of this line's '\n' without padding
+			at := b.Len() + len(line) + len(eol) - 1
+			need := 3
+			target := ((at+need)/al.chunk+1)*al.chunk + al.delta
+			for target-at < need {
+				target += al.chunk
+			}
+			line += " z=" + strings.Repeat("p", target-at-3)
 		}
 		nonEmpty = append(nonEmpty, line)
 		b.WriteString(line)
@@ -88,7 +109,19 @@ func execC17(sc *Scenario, env *Env) *Result {
 	if sc.Params["blanks"] == "1" {
 		blanks = 0.25
 	}
-	content, lines := c17BatchFile(r, L, sc.Params["crlf"] == "1", blanks, sc.Params["nl"] != "0")
+	var al *c17Align
+	if sc.Params["alignchunk"] != "" {
+		al = &c17Align{}
+		fmt.Sscan(sc.Params["alignline"], &al.line)
+		fmt.Sscan(sc.Params["alignchunk"], &al.chunk)
+		fmt.Sscan(sc.Params["aligndelta"], &al.delta)
+		res.add("reach.line-end-on-buffer-edge", 1)
+	}
+	pad, _ := strconv.Atoi(sc.Params["pad"])
+	content, lines := c17BatchFile(r, L, sc.Params["crlf"] == "1", blanks, sc.Params["nl"] != "0", pad, al)
+	if len(content) > 32768 {
+		res.add("reach.batch-file-above-32k", 1)
+	}
 	root := env.NewRoot()
 	bf := filepath.Join(root, "batch.txt")
 	os.WriteFile(bf, []byte(content), 0o644)
@@ -156,15 +189,19 @@ func execC17(sc *Scenario, env *Env) *Result {
 		sp := &SchedSpec{Sub: r.U64() + uint64(ni), Policy: r.PickS([]string{"random", "fifo", "lifo"}), RecordP: 1, Concurrency: r.Range(1, 8)}
 		disk := NewSimDisk()
 		// main(): startLine = a-1, endLine = b
-		out := env.RunBatch(root, asMain, sp, disk, true, g.a-1, g.b, 0)
+		writeLog := r.Bool(0.5)
+		out := env.RunBatch(root, asMain, sp, disk, writeLog, g.a-1, g.b, 0)
+		if !writeLog {
+			res.add("nodes.without-logoutput", 1)
+		}
 		res.add("nodes.run", 1)
 		res.add("decisions", float64(len(out.Decisions)))
 		if out.Panic != "" || out.Deadlock != "" {
 			viol("node", "node-did-not-complete", firstLine(out.Panic+out.Deadlock))
 			continue
 		}
-		rep := parseDispatcher(out.Stdout)
-		for _, id := range rep.Started {
+		// executed = the runs that reached the first line of Run (seen by the scheduler), whatever the node printed
+		for _, id := range out.TaskIDs {
 			executed[id]++
 		}
 	}
@@ -176,15 +213,42 @@ func execC17(sc *Scenario, env *Env) *Result {
 			if g.a < 1 || g.b < g.a {
 				continue
 			}
-			cmd := exec.Command(bin, "-module", "batch", "-concurrent", fmt.Sprint(r.Range(1, 4)), "-logoutput", "-workingdir", root, "-batch", bf, "-lines", fmt.Sprintf("%d-%d", g.a, g.b))
+			// option order and -logoutput vary: main() handles its flags one by one, in the order given
+			opts := [][]string{{"-module", "batch"}, {"-concurrent", fmt.Sprint(r.Range(1, 4))}, {"-workingdir", root}, {"-batch", bf}, {"-lines", fmt.Sprintf("%d-%d", g.a, g.b)}}
+			withLog := r.Bool(0.5)
+			if withLog {
+				opts = append(opts, []string{"-logoutput"})
+			}
+			for i := len(opts) - 1; i > 0; i-- {
+				j := r.Intn(i + 1)
+				opts[i], opts[j] = opts[j], opts[i]
+			}
+			var argv []string
+			for _, o := range opts {
+				argv = append(argv, o...)
+			}
+			cmd := exec.Command(bin, argv...)
 			out, err := cmd.CombinedOutput()
 			if err != nil {
-				viol("real-binary", "simulator-binary-failed", fmt.Sprintf("hermes2go -lines %d-%d exited with %v: %s", g.a, g.b, err, firstLine(lastNonEmpty(string(out)))))
+				viol("real-binary", "simulator-binary-failed", fmt.Sprintf("hermes2go %s exited with %v: %s", strings.Join(argv, " "), err, firstLine(lastNonEmpty(string(out)))))
 				ok = false
 				break
 			}
-			for _, id := range parseDispatcher(string(out)).Started {
-				executedReal[id]++
+			rep := parseDispatcher(string(out))
+			if withLog {
+				for _, id := range rep.Started {
+					executedReal[id]++
+				}
+			} else {
+				// every line of these batch files fails with a reported run error, so the error summary names each executed line
+				for _, l := range rep.ErrorLines {
+					id := l
+					if k := strings.IndexByte(l, ' '); k > 0 {
+						id = l[:k]
+					}
+					executedReal[id]++
+				}
+				res.add("nodes.real-binary-without-logoutput", 1)
 			}
 			res.add("nodes.real-binary", 1)
 		}
@@ -270,6 +334,15 @@ func init() {
 			sc.Params["blanks"] = fmt.Sprint(boolInt(r.Bool(0.4)))
 			sc.Params["nl"] = fmt.Sprint(boolInt(r.Bool(0.8)))
 			sc.Params["fileseed"] = fmt.Sprint(r.U64())
+			if r.Bool(0.3) {
+				sc.Params["pad"] = fmt.Sprint(r.PickI([]int{20, 120, 400}))
+			}
+			if r.Bool(0.35) {
+				// a line end on the edge of a read buffer (4 KiB: bufio; 32 KiB: the calculator's own chunks; 64 KiB)
+				sc.Params["alignline"] = fmt.Sprint(r.Intn(L))
+				sc.Params["alignchunk"] = fmt.Sprint(r.PickI([]int{4096, 32768, 32768, 65536 - 4096}))
+				sc.Params["aligndelta"] = fmt.Sprint(r.PickI([]int{-1, 0, 0, 1}))
+			}
 			return sc
 		},
 		Exec:  execC17,
@@ -277,10 +350,23 @@ func init() {
 		Chunk:      12,
 		NonTrivial: func(res *Result) bool { return res.Stats["nodes.run"] > 1 },
 		Rule:       "one (lines, nodes) pair per evaluation: exhaustive over 1..12 x 1..12 (thorough: 1..40 x 1..40) plus random pairs up to 2000 lines and 64 nodes; the batch file is generated with LF or CRLF endings, optional blank lines and optional missing final line break; the real calculator binary (built from the tree) is run as a child process for -size and -list; each printed range is executed by a simulated node: a fresh session running the shipped dispatcher under the seeded scheduler with the indices main() derives from -lines a-b, on the lines main() would read; oracles: number of ranges = reported array size, ranges contiguous from 1 to the last line, multiset of executed log ids = every non-empty line exactly once; non-trivial = more than one node ran",
-		ReachKeys:  []string{"nodes.run", "reach.more-nodes-than-lines", "reach.remainder"},
+		ReachKeys:  []string{"nodes.run", "reach.more-nodes-than-lines", "reach.remainder", "reach.line-end-on-buffer-edge", "reach.batch-file-above-32k", "nodes.without-logoutput", "nodes.real-binary-without-logoutput"},
 		Assumptions: []string{
 			"the scheduled nodes use a re-implementation of main()'s flag parsing and batch-file reading (stub); every scenario with at most 64 ranges is therefore executed a second time through the shipped simulator binary with real -batch/-lines flags (unscheduled) and judged by the same exactly-once oracle",
 			"lines are cheap failing lines (missing project argument) so that thousands of node runs fit in the budget; their log ids are read from the dispatcher's own output",
 		},
 	})
+	// a node whose process exits (log.Fatal inside a run) leaves the rest of its range unexecuted
+	deathHandlers["C17"] = func(r *Result, stderr string, code int, timedOut bool) {
+		if timedOut {
+			return
+		}
+		if strings.Contains(stderr, "panic:") {
+			r.Status = "violation"
+			r.Violations = append(r.Violations, Violation{Prop: "C17", Oracle: "node", Class: "node-process-panicked", Detail: "a node's process died while executing its range: " + panicLine(stderr)})
+		} else if code == 1 {
+			r.Status = "violation"
+			r.Violations = append(r.Violations, Violation{Prop: "C17", Oracle: "node", Class: "node-process-exited", Detail: "a node's process exited inside a run (the remaining lines of its range are never executed): " + firstLine(lastNonEmpty(stderr))})
+		}
+	}
 }
